@@ -1,7 +1,12 @@
 import Driver.Common
+import AggkitModel.Model.Certificate
 import AggkitModel.Model.GlobalIndex
 namespace Driver.GlobalIndex
 open Aggkit Aggkit.GlobalIndex
+
+/-- the bridge exit of the all-zero claim the harness passes to the optimistic commitment -/
+def zeroExit : Aggkit.Certificate.Exit :=
+  { leafType := 0, origNet := 0, origAddr := List.replicate 20 0, destNet := 0, destAddr := List.replicate 20 0, amount := 0, metadata := [] }
 
 def step (_ : Unit) (ws : List String) : Unit × String :=
   match ws with
@@ -23,7 +28,7 @@ def step (_ : Unit) (ws : List String) : Unit × String :=
       match consumers x with
       | some c =>
         let (m, r, l) := c.certField
-        ((), s!"cons {boolStr m} {r} {l} hash={toHex (Driver.keccakBytes c.hashInput)} fep={toHex c.fepChunk} wire={toHex c.wire} prover={toHex c.prover}")
+        ((), s!"cons {boolStr m} {r} {l} hash={toHex (Driver.keccakBytes c.hashInput)} fep={toHex c.fepChunk} wire={toHex c.wire} prover={toHex c.prover} opt={toHex (Driver.keccakBytes (c.optInput ++ Aggkit.Certificate.exitHash Driver.keccakBytes zeroExit))}")
       | none => ((), "cons panic")
     | none => ((), "bad-op")
   | _ => ((), "bad-op")
